@@ -2,3 +2,8 @@
 pub assume_specification<'a> [<Vec<u8> as From<&'a str>>::from] (s: &str) -> (v: Vec<u8>) ensures v@ == s.spec_bytes();
 pub assume_specification<'a, T: Clone> [<Vec<T> as From<&'a [T]>>::from] (s: &[T]) -> (v: Vec<T>) ensures v@ == s@;
 pub assume_specification<T: Clone> [<[T]>::to_vec] (s: &[T]) -> (v: Vec<T>) ensures v@ == s@;
+// Option::filter (std): None stays None; Some(x) is kept exactly when the predicate answers true for it
+pub assume_specification<T, P: FnOnce(&T) -> bool> [Option::<T>::filter] (o: Option<T>, predicate: P) -> (r: Option<T>)
+    requires o matches Some(x) ==> predicate.requires((&x,)),
+    ensures o is None ==> r is None,
+        o matches Some(x) ==> (exists|b: bool| predicate.ensures((&x,), b) && (if b { r == Some(x) } else { r is None }));
